@@ -475,7 +475,18 @@ func (s *Store) writeIndexFile() error {
 	if err != nil {
 		return fmt.Errorf("failed to marshal index file: %w", err)
 	}
-	return os.WriteFile(s.indexPath, indexJSON, 0666)
+	// write a temporary file and rename it into place, so that index.json
+	// is always either the old or the new complete document
+	tmpPath := s.indexPath + ".tmp"
+	if err := os.WriteFile(tmpPath, indexJSON, 0666); err != nil {
+		os.Remove(tmpPath)
+		return err
+	}
+	if err := os.Rename(tmpPath, s.indexPath); err != nil {
+		os.Remove(tmpPath)
+		return err
+	}
+	return nil
 }
 
 // GC removes garbage from Store. Unsaved index will be lost. To prevent unexpected
